@@ -74,7 +74,7 @@ def explore(prog, fmt):
                 elif e == 'none':
                     args.append(E('Option', 'None'))
                 elif e == 'some':
-                    args.append(E('Option', 'Some', TOP))
+                    args.append(E('Option', 'Some', ('ge1',)))   # requested count: n >= 1 (documented precondition)
                 else:
                     args.append(TOP)
             nviol = len(it.violations)
@@ -110,6 +110,7 @@ def run(prog, R):
     R.rule('FSM-S2', 'a record pushed into the set in this call is delivered: after a push the call returns Some(Ok)')
     R.rule('FSM-S3', 'a record-set read that returns Some(Ok) delivered at least one record')
     R.rule('FSM-S4', 'the position list is emptied before the first push; the byte buffer is cleared immediately before it is extended with the whole reader buffer')
+    R.rule('FSM-S5', 'while a record set under construction already holds records the buffer is not compacted: the resumed search is called with compaction forbidden')
     R.rule('SEEK-1', 'both branches of seek set the Positioned state and reset the same partial-search state; the far branch seeks the source to the target byte and refills')
     _cache.clear()
     for fmt in ('fasta', 'fastq'):
@@ -171,6 +172,21 @@ def run(prog, R):
                     bad = [v for v in it.violations if v[1] == b.key and str(t.line) in v[3].split(' ')[0]]
                     if not bad:
                         R.add('FSM-P', b, '%s-call#%d' % (kind, n), True, site(b, t.line), '%s call respects the protocol in every reachable abstract state' % kind)
+    for fmt in ('fasta', 'fastq'):
+        try:
+            b = prog.get('%s::Reader::read_record_set_exact' % fmt)
+        except KeyError:
+            continue
+        it = _cache[fmt]['interp']
+        n = 0
+        for x, t in b.calls():
+            cb = prog.local_callee_body(t.callee)
+            if cb is not None and cb.path in it.locate and any((not a.is_const and b.local_tys[a.place.local] == 'bool') or (a.is_const and a.j.get('ty') == 'bool') for a in t.args):
+                n += 1
+                bad = [v for v in it.violations if v[0] == 'FSM-S5' and v[1] == b.key]
+                if not bad:
+                    R.add('FSM-S5', b, 'resume-call#%d' % n, True, site(b, t.line), 'in every reachable abstract state the buffer may only be moved while the set is still empty')
+    R.floor('FSM-S5', 2)
     R.floor('FSM-P', 15)
     R.floor('FSM-E', 8)
     R.floor('FSM-T', 3)
